@@ -54,7 +54,7 @@ def check_case(case, ctx):
         par = case["params"]
         img, info = P.build_pe(_rng(case["seed"]), **{k: par[k] for k in ("arch", "lfanew", "magic_mz", "magic_pe", "compile_stamp",
                                                                             "export_stamp", "nsec", "export_section", "data", "vsize_mode", "export_at_start")},
-                                dos_mode=par.get("dos_mode", "random"), dos_stub_start=par.get("dos_stub_start", b""))
+                                dos_mode=par.get("dos_mode", "random"), dos_stub_start=par.get("dos_stub_start", b""), opt_magic=par.get("opt_magic"))
         lf = par["lfanew"]
         if any(struct.unpack_from("<I", img, k + 60)[0] == lf - k and lf - k >= 64 for k in range(1, lf - 63)):
             # the DOS area itself holds a second complete header window for the same PE header (a dword e_lfanew - k at
@@ -107,7 +107,11 @@ def check_case(case, ctx):
                 ctx.violation("pe.via_config", f"{type(e).__name__}: {e}", case)
                 return
             exp_stamp = want["compile_stamps"][1]
-            facts = (c.architecture, c.pe_compile_stamp, c.pe_export_stamp, c.xorencoded)
+            # (the xorencoded flag is not maintained on the Guardrails route and is no artefact of the image: not compared there)
+            facts = (c.architecture, c.pe_compile_stamp, c.pe_export_stamp, c.xorencoded if not par.get("guarded") else par["xorenc"])
+            if par.get("guarded") and c.guardrails is None:
+                ctx.violation("pe.via_config", "Guardrails-protected configuration extracted without guard metadata", case)
+                return
             if facts != (par["arch"], par["compile_stamp"], exp_stamp, par["xorenc"]):
                 ctx.violation("pe.via_config", f"BeaconConfig reports (arch, compile, export, xorencoded) = {facts}, image has {(par['arch'], par['compile_stamp'], exp_stamp, par['xorenc'])}", case)
                 return
@@ -121,7 +125,8 @@ def check_case(case, ctx):
                classes=(f"arch:{par['arch']}", f"xorenc:{par['xorenc']}", f"prepend:{'0' if not prepend else '1-899' if len(prepend) < 900 else '900'}",
                         f"append:{'none' if not append else 'some'}", f"export:{'none' if par['export_section'] is None else 'sec%d' % min(par['export_section'], par['nsec'] - 1)}",
                         f"nsec:{par['nsec']}", f"magic_mz:{len(par['magic_mz'])}", f"magic_pe:{len(par['magic_pe'])}",
-                        f"vsize:{par['vsize_mode']}", "export:section-start" if par["export_at_start"] and par["export_section"] is not None else "export:inside"))
+                        f"vsize:{par['vsize_mode']}", "export:section-start" if par["export_at_start"] and par["export_section"] is not None else "export:inside",
+                        f"config:{'none' if not par['data'] else 'guardrails' if par.get('guarded') else 'plain'}"))
     elif op == "version":
         stamp, maxenum = case["stamp"], case["maxenum"]
         ctx.mon("version.precedence")
@@ -226,9 +231,16 @@ def gen_image(rng, version):
         if bad in magic_mz:
             magic_mz = b"MZ"
     data = b""
+    guarded = False
     if rng.random() < 0.5:
         cfg = tlv.short(1, 8) + tlv.short(2, 443) + tlv.S(rng.choice([20, 31, 37, 53, 59, 70, 74, 76, 78, 77, 60]), 3, b"abcd")
         data = P.filler(rng, rng.randrange(0, 300)) + P.rx1(cfg.ljust(4096, b"\0"), rng.choice([0x69, 0x2E, 0x00])) + P.filler(rng, rng.randrange(0, 100))
+        if rng.random() < 0.12:
+            # the configuration is protected with Guardrails instead: extraction takes another route, the artefacts are the same
+            gb, _ = P.guard_block(rng, cfg, rng.choice([b"WIN-7F3KQ2", b"corp.example", b"jdoe", rng.randbytes(rng.randrange(2, 40))]),
+                                  [(5, 1, b"\x12\x34")])
+            data = P.filler(rng, rng.randrange(0, 300)) + gb + P.filler(rng, rng.randrange(0, 100))
+            guarded = True
     prepend_len = rng.choice([0, 0, 1, 9, 64, rng.randrange(0, 901), 900])
     r = rng.random()
     if r < 0.4:
@@ -250,13 +262,14 @@ def gen_image(rng, version):
         "arch": arch, "lfanew": rng.choice([64, 0x80, 0xF8, 1000, rng.randrange(64, 1001), rng.randrange(64, 260), rng.choice([172, 176, 183, 198, 0xE8])]),
         "magic_mz": magic_mz, "magic_pe": magic_pe, "dos_mode": rng.choice(["random", "genuine"]),
         # DOS stub bytes that continue e_lfanew = e8 00 00 00 into the other architecture's bootstrap pattern (e8 00 00 00 00 5b)
+        "opt_magic": rng.choice([None, None, None, 0, 0x10B, 0x20B, rng.randrange(0, 0x10000)]),
         "dos_stub_start": rng.choice([b"", b"", b"\x00\x5b", b"\x00\x5b\x89\xdf", b"\x55\x48\x89\xe5\x48\x81"]),
         "compile_stamp": rng.choice([1, 2**32 - 1, rng.randrange(1, 2**32), (rng.randrange(1, 2**16) << 16) | rng.choice([0x8664, 0x014C])]),
         "export_stamp": rng.choice([rng.choice(stamps), rng.choice(stamps), rng.choice(stamps) + rng.choice([-1, 1]), 1, 2**32 - 1, rng.randrange(1, 2**32)]),
         "nsec": nsec, "export_section": rng.choice([None, 0, 1, nsec - 1, rng.randrange(0, nsec)]), "data": data,
         "prepend": prepend, "append": append, "nulpad": bytes(rng.choice([0, 0, 3, 64])) if append else bytes(rng.choice([0, 0, 0, 16])),
         "xorenc": rng.random() < 0.35, "nonce": rng.randbytes(4), "stub": P.filler(rng, rng.choice([0, 57, rng.randrange(0, 800)])),
-        "vsize_mode": rng.choice(["raw", "aligned"]), "export_at_start": rng.random() < 0.5,
+        "vsize_mode": rng.choice(["raw", "aligned"]), "export_at_start": rng.random() < 0.5, "guarded": guarded,
     }
 
 
